@@ -8,6 +8,8 @@ transfer function / difference equation / impulse response / recursion agree.
              coq/theory/SeqZ.v       (is_zt, model H of the rule cascade of ZTransformer.term, zt_term_sound, zt_binom)
              coq/theory/SeqZAnalysis.v (Coquelicot: geometric_entry, zt_analytic)
   translate  lcapy/ztransform.py, lcapy/dft.py -> Gen/ZTableGen.v, Gen/DFTTableGen.v   (tools/tr_ztable.py, fail-closed)
+             lcapy/transformer.py + the six transformer classes -> Gen/DTKey_<class>.v  (tools/tr_dtkeys.py, fail-closed;
+             theory coq/theory/SeqCache.v, props/C13_cache.v: cache transparency from key-determines-view)
   prove      Gen/C13_tables.v (generated statements, templates below), props/C13.v, props/C13_analysis.v
   correspond real code (tools/impl_dt.py) vs the models, evaluated by vm_compute inside Coq over Qc / Qc[i]
   search     independent exact oracles: direct evaluation of the difference equation on the returned samples,
@@ -25,6 +27,7 @@ sys.path.insert(0, os.path.dirname(os.path.dirname(os.path.abspath(__file__))))
 from vlib import core
 sys.path.insert(0, os.path.join(core.VERIF, 'tools'))
 import tr_ztable as T
+import tr_dtkeys as TK
 
 PID = 'C13'
 MANIFEST = {
@@ -37,12 +40,19 @@ MANIFEST = {
             'DTFTs of finite and absolutely summable causal signals are compared with the same model on rational points of the unit circle. '
             'Table entries (z-transform table and rules, DFT constant/impulse/n**p closed forms, sinusoid/exponential/a**n/n rules, repeated-pole '
             'prefactors of the inverse z-transform) are regenerated from ztransform.py/dft.py/inverse_ztransform.py by a fail-closed ast translator on every run; the hand models are '
-            'evaluated inside Coq (vm_compute over Qc and Qc[i]) against what the real code returned on generated inputs.',
+            'evaluated inside Coq (vm_compute over Qc and Qc[i]) against what the real code returned on generated inputs. '
+            'Result caches: the key method of each of the six z/DFT/DTFT transformer classes and everything the code reads of the keyword arguments '
+            'between transform and term (kwargs.get, named parameters filled from **kwargs, followed along self/super calls) are regenerated from the '
+            'source (tools/tr_dtkeys.py, doit protocol pinned); per class gen_key_determines_view_<C> and gen_cache_transparent_<C> (any history of calls '
+            'returns what fresh computations return, for every function of what is read), the condition is proved necessary (keyed_cache_needs_key); '
+            'histories of calls on one instance are compared with fresh instances.',
     'note': 'Trusted: Coq kernel/vm_compute; tools/tr_ztable.py + statement templates in checks/c13.py; canonicalisation in tools/impl_dt.py '
             '(exact rationals / Q(zeta_M), never floats); sympy simplify/expand inside Lcapy modelled as identity (validated by the '
             'correspondence). _partial: dft.py UnitStep/rect window index logic, Faulhaber special values, n**p for p > 3 and termXk (correspondence + exact '
             'cyclotomic oracle only); DTFT entries with Dirac combs / images (generalised functions) not modelled; analytic statement for real z only; advanced '
-            'impulses/steps (negative delays) are transformed bilaterally by Lcapy (pinned by its own tests) and are outside the premise.',
+            'impulses/steps (negative delays) are transformed bilaterally by Lcapy (pinned by its own tests) and are outside the premise. '
+            'Cache model: state other than the keyword arguments (global sympy assumptions, attributes left on the instance by earlier calls other than '
+            'those set by check from the request) is not modelled; tools/tr_dtkeys.py is trusted for the read-set extraction.',
     'technique': 'Coq proof (induction, formal power series, Coquelicot) over hand models + fail-closed ast translator for table entries + '
                  'in-Coq correspondence evaluation + exact defining-sum search oracles',
 }
@@ -302,6 +312,38 @@ def gen_cases(rng, tier):
     for i in range(12 * k):
         add(gen_dft_expr(rng, i, inverse=True))
     return cases
+
+
+KEYHIST = {
+    'DFTTransformer': ('dft', 'n', 'k', ['delta(n-1)', '2**(-n)', 'delta(n-2)', '3**(-n)'], [{'N': 4}, {'N': 8}, {'N': 'N'}, {'N': 4, 'piecewise': True}, {'N': 6}]),
+    'InverseDFTTransformer': ('inverse_dft', 'k', 'n', ['delta(k-1)', 'delta(k-2)', '2**(-k)'], [{'N': 4}, {'N': 8}, {'N': 'N'}, {'N': 6}]),
+    'DTFTTransformer': ('dtft', 'n', 'f', ['1', 'delta(n-1)', '2**(-n)*u(n)'], [{}, {'images': 0}, {'images': 2}, {'images': 4}]),
+    'InverseZTransformer': ('inverse_ztransform', 'z', 'n', ['z/(z-1/2)', 'z/(z-1/3)', '1/(z-1/2)', 'z**2/((z-1/2)*(z-1/4))'],
+                            [{}, {'causal': True}, {'causal': False}, {'pairs': False}, {'causal': True, 'pairs': False}]),
+    'ZTransformer': ('ztransform', 'n', 'z', ['2**(-n)', 'n*3**(-n)', 'delta(n-2)', 'u(n-1)'], [{}]),
+    'IDTFTTransformer': ('inverse_dtft', 'f', 'n', ['1', '2', 'exp(-2*j*pi*f*dt)'], [{}]),
+}
+
+
+def gen_keyhist(rng, tier):
+    """histories of calls on one transformer instance: the same expression (up to a constant factor, which doit splits off
+    before the key) under different keyword arguments, interleaved"""
+    out = []
+    reps = 1 if tier == 'quick' else 4
+    for cls_ in sorted(KEYHIST):
+        mod, var, conj, exprs, kws = KEYHIST[cls_]
+        for rep_ in range(reps):
+            e = exprs[rep_ % len(exprs)] if rep_ else exprs[0]
+            order = list(kws)
+            rng.shuffle(order)
+            calls = []
+            for i, kw in enumerate(order + order[:2]):
+                fac = rng.choice(['', '', '3*', '(-2)*'])
+                calls.append([fac + '(' + e + ')' if fac else e, kw])
+            if rep_ % 2:
+                calls.insert(1, [exprs[(rep_ + 1) % len(exprs)], order[0]])
+            out.append({'kind': 'keyhist', 'module': mod, 'cls': cls_, 'var': var, 'conj': conj, 'calls': calls, 'cpu_limit': 60})
+    return out
 
 
 def poly_str(desc):
@@ -906,6 +948,8 @@ def coq_case(c, r, extra):
     """boolean Coq term: model(input) == observed; None when nothing to compare.
     May add python-side structural mismatches to extra['struct']."""
     k = c['kind']
+    if k == 'keyhist':
+        return None
     if k == 'response':
         n0, n1 = c['ni']
         if r['n'] != list(range(n0, n1 + 1)):
@@ -1065,6 +1109,13 @@ def get_cy(M):
 def oracle(c, r):
     """returns (ok: True/False/None, detail)"""
     k = c['kind']
+    if k == 'keyhist':
+        bad = [i for i, v in enumerate(r['same']) if not v]
+        if not bad:
+            return True, ''
+        i = bad[0]
+        return False, 'call %d %s on an instance that served %s before returns %s; a fresh instance returns %s' % (
+            i, c['calls'][i], c['calls'][:i], r['shared'][i], r['fresh'][i])
     if k == 'response':
         b, a, ic, x = ([F(v) for v in c[key]] for key in ('b', 'a', 'ic', 'x'))
         ys = dict(zip(r['n'], [F(v) for v in r['vals']]))
@@ -1396,6 +1447,9 @@ def py_response(b, a, x, xn0, ic, n0, n1):
 def fingerprint(c, r):
     """structural fingerprints of a failing case; one key per distinct defect mechanism"""
     k = c['kind']
+    if k == 'keyhist':
+        names = sorted(set(n_ for _e, kw in c['calls'] for n_ in kw))
+        return ['%s.cache:history-dependent:%s' % (c['cls'], '+'.join(names) or 'no-kwargs')]
     if k == 'response':
         b, a, ic, x = ([F(v) for v in c[key]] for key in ('b', 'a', 'ic', 'x'))
         if c['xkind'] == 'seq' and c['xn0'] != 0 and \
@@ -1502,7 +1556,7 @@ def term_class(d):
     return s
 
 
-NEEDED = ('FieldSec', 'SeqFilter', 'SeqDFT', 'SeqQcI', 'SeqZ', 'SeqZAnalysis')
+NEEDED = ('FieldSec', 'SeqFilter', 'SeqDFT', 'SeqQcI', 'SeqZ', 'SeqZAnalysis', 'SeqCache')
 
 
 def theory_ready():
@@ -1531,6 +1585,7 @@ def run(tier='quick', replay=None):
         res.trusted = [
             'Coq 8.16.1 kernel + vm_compute (no native_compute)',
             'translator tools/tr_ztable.py (sha256 %s) + statement templates in checks/c13.py' % core.sha256_file(trp)[:16],
+            'translator tools/tr_dtkeys.py (sha256 %s): key / read-set extraction of the transformer classes' % core.sha256_file(os.path.join(core.VERIF, 'tools', 'tr_dtkeys.py'))[:16],
             'canonicalisation tools/impl_dt.py (sha256 %s): exact rationals, Q(zeta_M) arithmetic via sympy Poly' % core.sha256_file(os.path.join(core.VERIF, 'tools', 'impl_dt.py'))[:16],
             'specifications: formal power series in 1/z (coq/theory/SeqFilter.v, SeqZ.v), DFT over a field with a primitive root (SeqDFT.v)',
             'modelled, not verified: sympy simplify/expand/cancel inside Lcapy as identity on rational functions; sympy roots/partial fractions of '
@@ -1552,6 +1607,9 @@ def run(tier='quick', replay=None):
             'advanced impulses/steps are transformed bilaterally: delta(n+2).ZT() = z**2, u(n+2).ZT() = z**2/(1-1/z) (pinned by lcapy/tests/test_ztransform.py)',
             'the unevaluated fallback of ZTransformer.term builds Sum(x[m] * z**m) instead of z**(-m) (not a closed form)',
             'nexpr("...N...").DFT() in a fresh process creates two different symbols N unless N = symbol("N", integer=True, positive=True) was registered first (Lcapy warns)',
+            'InverseZTransformer.term1 calls self.ratfun(expr, z, n) without **kwargs, so pairs=False and damping=... are silently ignored by '
+            'IZT (the key still distinguishes them; results are valid inverse transforms, only the requested form is not honoured); passing them on would '
+            'make Ratfun(expr, z, **kwargs) raise since Ratfun.__init__ accepts no keyword (inverse_laplace.py passes **kwargs to its ratfun)',
         ]
         texts = {}
         files = []
@@ -1584,8 +1642,23 @@ def run(tier='quick', replay=None):
                 texts['C13_tables.v'] = ttxt
                 w.write('C13_tables.v', ttxt)
                 files.append('C13_tables.v')
+        # 1b. cache keys of the six transformer classes (tools/tr_dtkeys.py)
+        try:
+            with warnings.catch_warnings():
+                warnings.simplefilter('ignore')
+                keys = TK.Keys(core.REPO)
+            for cls_, _f in TK.CLASSES:
+                fn_ = 'DTKey_%s.v' % cls_
+                texts[fn_] = keys.coq(cls_)
+                w.write(fn_, texts[fn_])
+                files.append(fn_)
+            res.extra['cache_keys'] = dict((cls_, {'key': [list(c_) for c_ in keys.out[cls_]['key']],
+                                                    'reads': keys.out[cls_]['where'], 'notes': keys.out[cls_]['notes']}) for cls_, _f in TK.CLASSES)
+        except TK.Untranslatable as e:
+            res.failed_obl.append(('translate_keys', 'lcapy/transformer.py + the six transformer classes', str(e)))
+            res.obligations += 1
         # 2. prove
-        for pf in ('C13.v', 'C13_analysis.v'):
+        for pf in ('C13.v', 'C13_analysis.v', 'C13_cache.v'):
             ptxt = open(os.path.join(core.VERIF, 'coq', 'props', pf)).read()
             texts[pf] = ptxt
             w.write(pf, ptxt)
@@ -1607,7 +1680,7 @@ def run(tier='quick', replay=None):
         if replay:
             cases = [replay['case']]
         else:
-            cases = gen_cases(rng, tier)
+            cases = gen_cases(rng, tier) + gen_keyhist(rng, tier)
         import time as _t
         _t0 = _t.time()
         results = core.run_impl('impl_dt.py', cases, hashseeds=[0])
@@ -1772,6 +1845,8 @@ def run(tier='quick', replay=None):
                 related |= {'exprdft', 'expridft'}
             if name.startswith('gen_izt') or 'ratfun' in msg or 'pole' in msg:
                 related |= {'izt', 'impulse', 'step', 'ztrt'}
+            if name.startswith('gen_key_determines_view') or name.startswith('gen_cache_transparent') or name == 'translate_keys':
+                related = {'keyhist'}
             if name in ('translate', 'generated_definitions') and not related:
                 related = {'zt', 'exprdft', 'expridft', 'izt', 'impulse', 'step', 'ztrt'}
             if related & failed_kinds:
